@@ -76,7 +76,7 @@ Definition push_others (s : st) (h n c : nat) (v : Qc) : st :=
    filter input. *)
 Definition sources := nat -> nat -> option Qc.
 
-Inductive exnk := XZeroDiv | XRuntime.
+Inductive exnk := XZeroDiv | XRuntime | XOther.   (* XOther: never produced by the model *)
 Inductive event :=
 | EvRead (src : nat) (v : option Qc)          (* next() on a source (None: StopIteration) *)
 | EvYield (y : Qc)
@@ -138,86 +138,25 @@ Fixpoint pull (S : sources) (e : cx) (s : st) : pres * st * list event :=
   end.
 
 (* ------------------------------------------------------------------- Poly *)
-(* Poly._data: (power, coefficient) items in insertion order, keys distinct *)
-Definition tdata := list (Z * coef).
+(* The Poly / ZFilter algebra is written once, over an abstract coefficient
+   type with the operations the code applies to coefficients.  Instance coef_alg
+   (below): numbers and Stream objects, with the tee hubs.  The Spec instantiates
+   the same algebra at plain numbers (a coefficient frozen at one instant). *)
+Record calg (C : Type) := CAlg {
+  ca_add : C -> C -> C;                 (* a + b                                      *)
+  ca_mul : C -> C -> C;                 (* a * b                                      *)
+  ca_neg : C -> C;                      (* -a                                         *)
+  ca_recip : C -> option C;             (* operator.truediv(1, a); None: raises       *)
+  ca_zero_num : C -> bool;              (* not a Stream and == 0                      *)
+  ca_equal : C -> C -> bool;            (* Poly.__eq__'s is_pair_equal                *)
+  ca_hub : nat -> nat -> nat -> C -> C; (* thub(a, n) (hub number h), copy c taken    *)
+  ca_num : Qc -> C                      (* a literal number                           *)
+}.
+Arguments ca_add {C}. Arguments ca_mul {C}. Arguments ca_neg {C}. Arguments ca_recip {C}.
+Arguments ca_zero_num {C}. Arguments ca_equal {C}. Arguments ca_hub {C}. Arguments ca_num {C}.
 
-Definition is_zero_num (c : coef) : bool := match c with CNum q => Qc_eqb q 0 | CStr _ => false end.
-(* Poly.__init__ "Compact zeros": a Stream is never deleted *)
-Definition tcompact (d : tdata) : tdata := filter (fun kv => negb (is_zero_num (snd kv))) d.
-
-Definition d_has (d : tdata) (k : Z) : bool := existsb (fun kv => (fst kv =? k)%Z) d.
-Definition d_get (d : tdata) (k : Z) : option coef :=
-  match find (fun kv => (fst kv =? k)%Z) d with Some kv => Some (snd kv) | None => None end.
-(* Poly.__getitem__: the stored value or the Poly's zero *)
-Definition t_getitem (d : tdata) (k : Z) : coef :=
-  match d_get d k with Some c => c | None => CNum 0 end.
-(* dict[k] = v : a present key keeps its place *)
-Definition d_set (d : tdata) (k : Z) (v : coef) : tdata :=
-  if d_has d k then map (fun kv => if (fst kv =? k)%Z then (k, v) else kv) d else d ++ [(k, v)].
-Definition d_del (d : tdata) (k : Z) : tdata := filter (fun kv => negb (fst kv =? k)%Z) d.
-(* Poly.__setitem__ *)
-Definition t_setitem (d : tdata) (k : Z) (v : coef) : tdata :=
-  if is_zero_num v then d_del d k else d_set d k v.
-
-Definition cadd (a b : coef) : coef :=
-  match cbin OAdd a b with Some c => c | None => CNum 0 end.
-Definition cmul (a b : coef) : coef :=
-  match cbin OMul a b with Some c => c | None => CNum 0 end.
-
-(* Poly(list) / Poly(scalar) *)
-Fixpoint tenumerate (i : Z) (l : list coef) : tdata :=
-  match l with [] => [] | c :: r => (i, c) :: tenumerate (i + 1) r end.
-Definition poly_of_scalar (c : coef) : tdata := tcompact [(0%Z, c)].
-
-(* Poly.__add__: OrderedDict(chain(self, other, intersect)) then Poly(...) *)
-Definition padd (a b : tdata) : tdata :=
-  tcompact (map (fun kv => match d_get b (fst kv) with
-                           | Some w => (fst kv, cadd (snd kv) w)
-                           | None => kv end) a
-            ++ filter (fun kv => negb (d_has a (fst kv))) b).
-
-(* unary minus of a Poly *)
-Definition pneg (a : tdata) : tdata := tcompact (map (fun kv => (fst kv, cneg (snd kv))) a).
-
-(* new_data[k] += v  /  new_data[k] = v *)
-Definition d_acc (d : tdata) (k : Z) (v : coef) : tdata :=
-  match d_get d k with
-  | Some old => d_set d k (cadd old v)
-  | None => d ++ [(k, v)]
-  end.
-
-(* Poly.__mul__.  Hub numbers: item i of self gets hub h+i (len(other) copies),
-   item j of other gets hub h+len(self)+j (len(self) copies); the product of item
-   i and item j uses copy j of the first and copy i of the second. *)
 Fixpoint enum_from {A} (i : nat) (l : list A) : list (nat * A) :=
   match l with [] => [] | x :: r => (i, x) :: enum_from (Datatypes.S i) r end.
-
-Definition pmul_items (h : nat) (a b : tdata) : list (Z * coef) :=
-  let na := length a in let nb := length b in
-  flat_map (fun ia =>
-    map (fun jb =>
-      let '(i, (k1, v1)) := ia in let '(j, (k2, v2)) := jb in
-      ((k1 + k2)%Z, cmul (hub_copy (h + i) nb j v1) (hub_copy (h + na + j) na i v2)))
-      (enum_from 0 b)) (enum_from 0 a).
-
-Definition pmul (h : nat) (a b : tdata) : tdata * nat :=
-  (tcompact (fold_left (fun acc kv => d_acc acc (fst kv) (snd kv)) (pmul_items h a b) []),
-   (h + length a + length b)%nat).
-
-(* Poly.copy(): every Stream value v becomes v.copy(); v itself now reads copy 0
-   of the tee, the new Poly holds copy 1.  Returns (self afterwards, the copy). *)
-Definition pcopy (h : nat) (a : tdata) : tdata * tdata * nat :=
-  (map (fun ikv => let '(i, (k, v)) := ikv in (k, hub_copy (h + i) 2 0 v)) (enum_from 0 a),
-   map (fun ikv => let '(i, (k, v)) := ikv in (k, hub_copy (h + i) 2 1 v)) (enum_from 0 a),
-   (h + length a)%nat).
-
-(* Poly.__eq__: two Stream objects are compared with "is"; the operands of an
-   operator are distinct objects here, so a Stream item is never equal *)
-Definition pair_equal (a b : coef) : bool :=
-  match a, b with CNum x, CNum y => Qc_eqb x y | _, _ => false end.
-Definition peq (a b : tdata) : bool :=
-  Nat.eqb (length a) (length b) &&
-  forallb (fun kv => match d_get b (fst kv) with Some w => pair_equal (snd kv) w | None => false end) a.
 
 (* generic versions of C04's terms / dense_len / min_power *)
 Fixpoint tinsert {A} (kv : Z * A) (l : list (Z * A)) : list (Z * A) :=
@@ -232,87 +171,186 @@ Definition tdense_len {A} (d : list (Z * A)) : nat :=
   match d with [] => 0%nat
   | kv :: r => Datatypes.S (Z.to_nat (fold_left (fun m kv' => Z.max m (fst kv')) r (fst kv))) end.
 
-(* ---------------------------------------------------------------- ZFilter *)
-Record tfilt := TF { t_num : tdata; t_den : tdata }.
-
 Inductive berr := BZeroDiv | BEmptyDen.
 Inductive bres (A : Type) := BOk (a : A) (h : nat) | BErr (e : berr).
 Arguments BOk {A}. Arguments BErr {A}.
-
-(* LinearFilter.__init__(Poly, Poly): Poly(poly) compacts again; a lowest
-   denominator power p <> 0 multiplies both by Poly({-p: 1}) *)
-Definition mk_tfilt (h : nat) (num den : tdata) : bres tfilt :=
-  let n := tcompact num in let d := tcompact den in
-  match tmin_power d with
-  | None => BErr BEmptyDen
-  | Some p =>
-      if (p =? 0)%Z then BOk (TF n d) h
-      else let delta := [((- p)%Z, CNum 1)] in
-           let '(n', h1) := pmul h n delta in
-           let '(d', h2) := pmul h1 d delta in
-           BOk (TF n' d') h2
-  end.
-
 Definition bbind {A B} (r : bres A) (k : A -> nat -> bres B) : bres B :=
   match r with BOk a h => k a h | BErr e => BErr e end.
 
-(* ZFilter([c]) *)
-Definition zf_scalar (h : nat) (c : coef) : bres tfilt :=
-  mk_tfilt h (tcompact (tenumerate 0 [c])) [(0%Z, CNum 1)].
+Section Algebra.
+  Context {C : Type}.
+  Variable A : calg C.
 
-Definition fadd (h : nat) (f g : tfilt) : bres tfilt :=
-  if peq (t_den f) (t_den g) then mk_tfilt h (padd (t_num f) (t_num g)) (t_den f)
-  else
-    let '(gd, gdc, h1) := pcopy h (t_den g) in
-    let '(p1, h2) := pmul h1 (t_num f) gdc in
-    let '(fd, fdc, h3) := pcopy h2 (t_den f) in
-    let '(p2, h4) := pmul h3 (t_num g) fdc in
-    let '(dd, h5) := pmul h4 fd gd in
-    mk_tfilt h5 (padd p1 p2) dd.
+  (* Poly._data: (power, coefficient) items in insertion order, keys distinct *)
+  Definition gdata := list (Z * C).
 
-Definition fneg (h : nat) (f : tfilt) : bres tfilt := mk_tfilt h (pneg (t_num f)) (t_den f).
+  (* Poly.__init__ "Compact zeros": a Stream is never deleted *)
+  Definition tcompact (d : gdata) : gdata := filter (fun kv => negb (ca_zero_num A (snd kv))) d.
 
-Definition fmul (h : nat) (f g : tfilt) : bres tfilt :=
-  let '(n, h1) := pmul h (t_num f) (t_num g) in
-  let '(d, h2) := pmul h1 (t_den f) (t_den g) in
-  mk_tfilt h2 n d.
+  Definition d_has (d : gdata) (k : Z) : bool := existsb (fun kv => (fst kv =? k)%Z) d.
+  Definition d_get (d : gdata) (k : Z) : option C :=
+    match find (fun kv => (fst kv =? k)%Z) d with Some kv => Some (snd kv) | None => None end.
+  (* Poly.__getitem__: the stored value or the Poly's zero *)
+  Definition t_getitem (d : gdata) (k : Z) : C :=
+    match d_get d k with Some c => c | None => ca_num A 0 end.
+  (* dict[k] = v : a present key keeps its place *)
+  Definition d_set (d : gdata) (k : Z) (v : C) : gdata :=
+    if d_has d k then map (fun kv => if (fst kv =? k)%Z then (k, v) else kv) d else d ++ [(k, v)].
+  Definition d_del (d : gdata) (k : Z) : gdata := filter (fun kv => negb (fst kv =? k)%Z) d.
+  (* Poly.__setitem__ *)
+  Definition t_setitem (d : gdata) (k : Z) (v : C) : gdata :=
+    if ca_zero_num A v then d_del d k else d_set d k v.
 
-(* filter * non-filter *)
-Definition fmul_scalar (h : nat) (f : tfilt) (c : coef) : bres tfilt :=
-  let '(n, h1) := pmul h (t_num f) (poly_of_scalar c) in
-  mk_tfilt h1 n (t_den f).
+  (* Poly(list) / Poly(scalar) *)
+  Fixpoint tenumerate (i : Z) (l : list C) : gdata :=
+    match l with [] => [] | c :: r => (i, c) :: tenumerate (i + 1) r end.
+  Definition poly_of_scalar (c : C) : gdata := tcompact [(0%Z, c)].
 
-(* operator.truediv(1, c) *)
-Definition recip (c : coef) : option coef := cbin ODiv (CNum 1) c.
+  (* Poly.__add__: OrderedDict(chain(self, other, intersect)) then Poly(...) *)
+  Definition padd (a b : gdata) : gdata :=
+    tcompact (map (fun kv => match d_get b (fst kv) with
+                             | Some w => (fst kv, ca_add A (snd kv) w)
+                             | None => kv end) a
+              ++ filter (fun kv => negb (d_has a (fst kv))) b).
 
-(* expressions over filters, as the harness writes them in Python *)
-Inductive fexp :=
-| FBase (num den : tdata)              (* ZFilter(OrderedDict(num), OrderedDict(den)) *)
-| FAdd (a b : fexp) | FSub (a b : fexp) | FMul (a b : fexp) | FNeg (a : fexp)
-| FMulR (a : fexp) (c : coef)          (* a * c *)
-| FMulL (c : coef) (a : fexp)          (* c * a *)
-| FAddR (a : fexp) (c : coef)          (* a + c *)
-| FAddL (c : coef) (a : fexp)          (* c + a *)
-| FDivR (a : fexp) (c : coef).         (* a / c *)
+  (* unary minus of a Poly *)
+  Definition pneg (a : gdata) : gdata := tcompact (map (fun kv => (fst kv, ca_neg A (snd kv))) a).
 
-Fixpoint build (e : fexp) (h : nat) : bres tfilt :=
-  match e with
-  | FBase n d => mk_tfilt h n d
-  | FAdd a b => bbind (build a h) (fun f h1 => bbind (build b h1) (fun g h2 => fadd h2 f g))
-  | FSub a b => bbind (build a h) (fun f h1 => bbind (build b h1) (fun g h2 =>
-                  bbind (fneg h2 g) (fun g' h3 => fadd h3 f g')))
-  | FMul a b => bbind (build a h) (fun f h1 => bbind (build b h1) (fun g h2 => fmul h2 f g))
-  | FNeg a => bbind (build a h) (fun f h1 => fneg h1 f)
-  | FMulR a c => bbind (build a h) (fun f h1 => fmul_scalar h1 f c)
-  | FMulL c a => bbind (build a h) (fun f h1 => bbind (zf_scalar h1 c) (fun g h2 => fmul h2 g f))
-  | FAddR a c => bbind (build a h) (fun f h1 => bbind (zf_scalar h1 c) (fun g h2 => fadd h2 f g))
-  | FAddL c a => bbind (build a h) (fun f h1 => bbind (zf_scalar h1 c) (fun g h2 => fadd h2 g f))
-  | FDivR a c => bbind (build a h) (fun f h1 =>
-                  match recip c with
-                  | None => BErr BZeroDiv
-                  | Some r => fmul_scalar h1 f r
-                  end)
-  end.
+  (* new_data[k] += v  /  new_data[k] = v *)
+  Definition d_acc (d : gdata) (k : Z) (v : C) : gdata :=
+    match d_get d k with
+    | Some old => d_set d k (ca_add A old v)
+    | None => d ++ [(k, v)]
+    end.
+
+  (* Poly.__mul__.  Hub numbers: item i of self gets hub h+i (len(other) copies),
+     item j of other gets hub h+len(self)+j (len(self) copies); the product of
+     item i and item j uses copy j of the first and copy i of the second. *)
+  Definition pmul_items (h : nat) (a b : gdata) : list (Z * C) :=
+    let na := length a in let nb := length b in
+    flat_map (fun ia =>
+      map (fun jb =>
+        ((fst (snd ia) + fst (snd jb))%Z,
+         ca_mul A (ca_hub A (h + fst ia) nb (fst jb) (snd (snd ia)))
+                  (ca_hub A (h + na + fst jb) na (fst ia) (snd (snd jb)))))
+        (enum_from 0 b)) (enum_from 0 a).
+
+  Definition pmul (h : nat) (a b : gdata) : gdata * nat :=
+    (tcompact (fold_left (fun acc kv => d_acc acc (fst kv) (snd kv)) (pmul_items h a b) []),
+     (h + length a + length b)%nat).
+
+  (* Poly.copy(): every Stream value v becomes v.copy(); v itself now reads copy
+     0 of the tee, the new Poly holds copy 1.  (self afterwards, the copy, next hub) *)
+  Definition pcopy (h : nat) (a : gdata) : gdata * gdata * nat :=
+    (map (fun ikv => (fst (snd ikv), ca_hub A (h + fst ikv) 2 0 (snd (snd ikv)))) (enum_from 0 a),
+     map (fun ikv => (fst (snd ikv), ca_hub A (h + fst ikv) 2 1 (snd (snd ikv)))) (enum_from 0 a),
+     (h + length a)%nat).
+
+  Definition peq (a b : gdata) : bool :=
+    Nat.eqb (length a) (length b) &&
+    forallb (fun kv => match d_get b (fst kv) with Some w => ca_equal A (snd kv) w | None => false end) a.
+
+  (* ---------------------------------------------------------------- ZFilter *)
+  Record gfilt := TF { t_num : gdata; t_den : gdata }.
+
+  (* LinearFilter.__init__(Poly, Poly): Poly(poly) compacts again; a lowest
+     denominator power p <> 0 multiplies both by Poly({-p: 1}) *)
+  Definition mk_tfilt (h : nat) (num den : gdata) : bres gfilt :=
+    let n := tcompact num in let d := tcompact den in
+    match tmin_power d with
+    | None => BErr BEmptyDen
+    | Some p =>
+        if (p =? 0)%Z then BOk (TF n d) h
+        else let delta := [((- p)%Z, ca_num A 1)] in
+             let n' := pmul h n delta in
+             let d' := pmul (snd n') d delta in
+             BOk (TF (fst n') (fst d')) (snd d')
+    end.
+
+  (* ZFilter([c]) *)
+  Definition zf_scalar (h : nat) (c : C) : bres gfilt :=
+    mk_tfilt h (tcompact (tenumerate 0 [c])) [(0%Z, ca_num A 1)].
+
+  Definition fadd (h : nat) (f g : gfilt) : bres gfilt :=
+    if peq (t_den f) (t_den g) then mk_tfilt h (padd (t_num f) (t_num g)) (t_den f)
+    else
+      let '(gd, gdc, h1) := pcopy h (t_den g) in
+      let '(p1, h2) := pmul h1 (t_num f) gdc in
+      let '(fd, fdc, h3) := pcopy h2 (t_den f) in
+      let '(p2, h4) := pmul h3 (t_num g) fdc in
+      let '(dd, h5) := pmul h4 fd gd in
+      mk_tfilt h5 (padd p1 p2) dd.
+
+  Definition fneg (h : nat) (f : gfilt) : bres gfilt := mk_tfilt h (pneg (t_num f)) (t_den f).
+
+  Definition fmul (h : nat) (f g : gfilt) : bres gfilt :=
+    let '(n, h1) := pmul h (t_num f) (t_num g) in
+    let '(d, h2) := pmul h1 (t_den f) (t_den g) in
+    mk_tfilt h2 n d.
+
+  (* filter * non-filter *)
+  Definition fmul_scalar (h : nat) (f : gfilt) (c : C) : bres gfilt :=
+    let '(n, h1) := pmul h (t_num f) (poly_of_scalar c) in
+    mk_tfilt h1 n (t_den f).
+
+  (* expressions over filters, as the harness writes them in Python *)
+  Inductive gfexp :=
+  | FBase (num den : gdata)              (* ZFilter(OrderedDict(num), OrderedDict(den)) *)
+  | FAdd (a b : gfexp) | FSub (a b : gfexp) | FMul (a b : gfexp) | FNeg (a : gfexp)
+  | FMulR (a : gfexp) (c : C)            (* a * c *)
+  | FMulL (c : C) (a : gfexp)            (* c * a *)
+  | FAddR (a : gfexp) (c : C)            (* a + c *)
+  | FAddL (c : C) (a : gfexp)            (* c + a *)
+  | FDivR (a : gfexp) (c : C).           (* a / c *)
+
+  Fixpoint build (e : gfexp) (h : nat) : bres gfilt :=
+    match e with
+    | FBase n d => mk_tfilt h n d
+    | FAdd a b => bbind (build a h) (fun f h1 => bbind (build b h1) (fun g h2 => fadd h2 f g))
+    | FSub a b => bbind (build a h) (fun f h1 => bbind (build b h1) (fun g h2 =>
+                    bbind (fneg h2 g) (fun g' h3 => fadd h3 f g')))
+    | FMul a b => bbind (build a h) (fun f h1 => bbind (build b h1) (fun g h2 => fmul h2 f g))
+    | FNeg a => bbind (build a h) (fun f h1 => fneg h1 f)
+    | FMulR a c => bbind (build a h) (fun f h1 => fmul_scalar h1 f c)
+    | FMulL c a => bbind (build a h) (fun f h1 => bbind (zf_scalar h1 c) (fun g h2 => fmul h2 g f))
+    | FAddR a c => bbind (build a h) (fun f h1 => bbind (zf_scalar h1 c) (fun g h2 => fadd h2 f g))
+    | FAddL c a => bbind (build a h) (fun f h1 => bbind (zf_scalar h1 c) (fun g h2 => fadd h2 g f))
+    | FDivR a c => bbind (build a h) (fun f h1 =>
+                    match ca_recip A c with
+                    | None => BErr BZeroDiv
+                    | Some r => fmul_scalar h1 f r
+                    end)
+    end.
+
+  (* "if isinstance(self.denpoly[0], Stream)": divide through by the gain stream.
+     inv_orig / inv_copy: the two halves of inv_gain.copy(), inv_gain = 1 / den[0] *)
+  Definition divide_through (h : nat) (f : gfilt) (inv_orig inv_copy : C) : bres gfilt :=
+    let den1 := d_del (t_den f) 0 in                              (* den[0] = 0            *)
+    let '(den2, h1) := pmul h den1 (poly_of_scalar inv_copy) in   (* den *= inv_gain.copy()*)
+    let den3 := t_setitem den2 0 (ca_num A 1) in                  (* den[0] = 1            *)
+    let '(num2, h2) := pmul h1 (t_num f) (poly_of_scalar inv_orig) in
+    mk_tfilt h2 num2 den3.
+End Algebra.
+Arguments TF {C}. Arguments t_num {C}. Arguments t_den {C}.
+Arguments FBase {C}. Arguments FAdd {C}. Arguments FSub {C}. Arguments FMul {C}. Arguments FNeg {C}.
+Arguments FMulR {C}. Arguments FMulL {C}. Arguments FAddR {C}. Arguments FAddL {C}. Arguments FDivR {C}.
+
+(* ------------------------------------- the instance: numbers and Stream objects *)
+Definition cadd (a b : coef) : coef :=
+  match cbin OAdd a b with Some c => c | None => CNum 0 end.
+Definition cmul (a b : coef) : coef :=
+  match cbin OMul a b with Some c => c | None => CNum 0 end.
+Definition is_zero_num (c : coef) : bool := match c with CNum q => Qc_eqb q 0 | CStr _ => false end.
+(* Poly.__eq__: two Stream objects are compared with "is"; the operands of an
+   operator are distinct objects here, so a Stream item is never equal *)
+Definition pair_equal (a b : coef) : bool :=
+  match a, b with CNum x, CNum y => Qc_eqb x y | _, _ => false end.
+Definition coef_alg : calg coef :=
+  CAlg coef cadd cmul cneg (cbin ODiv (CNum 1)) is_zero_num pair_equal hub_copy CNum.
+
+Definition tdata := list (Z * coef).
+Definition tfilt := @gfilt coef.
+Definition fexp := @gfexp coef.
 
 (* ------------------------------------------------- the generated program *)
 Inductive tterm :=
@@ -357,7 +395,7 @@ Definition t_any_negative (f : tfilt) : bool :=
 (* the part of __call__ after the variable-gain branch *)
 Definition tcodegen (f : tfilt) (zero : Qc) : result tgen :=
   if t_any_negative f then Err NonCausal
-  else if is_zero_num (t_getitem (t_den f) 0) then Err ZeroGain
+  else if is_zero_num (t_getitem coef_alg (t_den f) 0) then Err ZeroGain
   else
     let la := tdense_len (t_den f) in
     let lb := tdense_len (t_num f) in
@@ -373,20 +411,12 @@ Definition tcodegen (f : tfilt) (zero : Qc) : result tgen :=
     end.
 
 (* "if isinstance(self.denpoly[0], Stream)": divide through by the gain stream *)
-Inductive cerr := CBuild (e : berr) | CCall (e : exn).
-
 Definition prepare (h : nat) (f : tfilt) : result (bres tfilt) :=
   if t_any_negative f then Err NonCausal
-  else match t_getitem (t_den f) 0 with
+  else match t_getitem coef_alg (t_den f) 0 with
   | CStr e0 =>
       let inv := XCS ODiv 1 e0 in                       (* inv_gain = 1 / den[0]      *)
-      let den1 := d_del (t_den f) 0 in                  (* den[0] = 0                 *)
-      let inv_orig := XTee h 2 0 inv in                 (* inv_gain.copy()            *)
-      let inv_copy := XTee h 2 1 inv in
-      let '(den2, h1) := pmul (Datatypes.S h) den1 (poly_of_scalar (CStr inv_copy)) in
-      let den3 := t_setitem den2 0 (CNum 1) in          (* den[0] = 1                 *)
-      let '(num2, h2) := pmul h1 (t_num f) (poly_of_scalar (CStr inv_orig)) in
-      Ok (mk_tfilt h2 num2 den3)
+      Ok (divide_through coef_alg (Datatypes.S h) f (CStr (XTee h 2 0 inv)) (CStr (XTee h 2 1 inv)))
   | CNum _ => Ok (BOk f h)
   end.
 
@@ -485,7 +515,7 @@ Definition call_tv (S : sources) (f : tfilt) (h : nat) (mem : memarg) (zero : Qc
   end.
 
 Definition run_case (S : sources) (e : fexp) (mem : memarg) (zero : Qc) (fuel : nat) : tres :=
-  match build e 0 with
+  match build coef_alg e 0 with
   | BErr b => RBuild b
   | BOk f h => call_tv S f h mem zero fuel
   end.
